@@ -10,7 +10,7 @@ from .. import estimators as E, gen
 
 RULE = ('per estimator: model descriptor x pool of 2-8 query points (coordinates in [-1e3,1e3], or '
         'integral) x index pairs into the pool (repeats allowed) x representation {ndarray, nested list, '
-        'int64/int32 (integral pools), Fortran order, non-contiguous slice, single-pair batch, indices via '
+        'int64/int32/int16/uint8/uint16/uint32 (integral pools), Fortran order, non-contiguous slice, single-pair batch, indices via '
         'array preprocessor}. Views compared: pair_distance, get_metric (plain, squared), '
         '||transform(u)-transform(v)||, sqrt((u-v)^T M (u-v)), score_pairs, and a long-double reference '
         '||L(u-v)||. Non-trivial = u != v and non-zero distance; distinct by (model, pool, pair).')
@@ -26,13 +26,16 @@ def case_strategy(draw, name):
   d = m['desc']['d']
   integral = draw(st.booleans())
   npts = draw(st.integers(2, 8))
-  if integral:
+  dtype = draw(st.sampled_from(['int64', 'int32', 'int16', 'uint8', 'uint16', 'uint32']))
+  if integral and dtype.startswith('u'):
+    pool = [[float(draw(st.integers(0, 200))) for _ in range(d)] for _ in range(npts)]
+  elif integral:
     pool = [[float(draw(st.integers(-1000, 1000))) for _ in range(d)] for _ in range(npts)]
   else:
     pool = [[draw(gen.moderate_float()) for _ in range(d)] for _ in range(npts)]
   pairs = draw(st.lists(st.tuples(st.integers(0, npts - 1), st.integers(0, npts - 1)), min_size=1, max_size=12))
   return dict(model=m, pool=pool, integral=integral, pairs=[list(p) for p in pairs],
-              dtype=draw(st.sampled_from(['int64', 'int32', 'int16'])))
+              dtype=dtype)
 
 
 def check_c02(case, stats):
@@ -128,8 +131,12 @@ def check_c02(case, stats):
     gm = float(call('C02/get_metric()/' + name, metric, u, v))
     gsq = float(call('C02/get_metric(squared)/' + name, metric, u, v, squared=True))
     glist = float(call('C02/get_metric(list)/' + name, metric, u.tolist(), v.tolist()))
+    if case['integral'] and j < n_orig:
+      gint = float(call('C02/get_metric(%s)/%s' % (case['dtype'], name), metric, u.astype(case['dtype']), v.astype(case['dtype'])))
+    else:
+      gint = gm
     views = {'pair_distance': float(pd[j]), 'pair_distance-single': single, 'get_metric': gm,
-             'get_metric-list-input': glist}
+             'get_metric-list-input': glist, 'get_metric-%s-input' % (case['dtype'] if case['integral'] else 'float'): gint}
     for vn, val in views.items():
       if not abs(val - ref) <= bnd:
         raise Violation('C02/view/%s/%s' % (vn, name), '%r vs reference %r (bound %g)' % (val, ref, bnd))
